@@ -1701,3 +1701,7 @@ mod tests {
         );
     }
 }
+
+#[cfg(all(test, pendulum_project_ntpd_rs_verif))]
+#[path = "/verif/harness/ntp_proto/server.rs"]
+pub(crate) mod verif_hook;
